@@ -548,7 +548,24 @@ class MetadataManager:
             ]
             sort_orders.append(SortOrder(order_id=order_dict["order_id"], fields=sort_fields))
 
-        # Reconstruct snapshots
+        # Reconstruct snapshots. This section says which files the table consists of,
+        # and the garbage collector deletes what it does not name - so it is read
+        # strictly. Python iterates an empty string or an empty object as "no
+        # snapshots", and a manifest list that is null, 0, false, [] or {} reads as
+        # "this snapshot has no files": a metadata file damaged that way would parse
+        # as a table without files. A section that is not a list, or a snapshot whose
+        # manifest list is not a string, makes the file unparseable instead.
+        if not isinstance(metadata_dict["snapshots"], list):
+            raise ValueError(
+                f"metadata section 'snapshots' is not a list "
+                f"({type(metadata_dict['snapshots']).__name__})"
+            )
+        for snapshot_dict in metadata_dict["snapshots"]:
+            if not isinstance(snapshot_dict["manifest_list"], str):
+                raise ValueError(
+                    f"snapshot {snapshot_dict.get('snapshot_id')!r} does not name its manifest "
+                    f"list as a string ({snapshot_dict['manifest_list']!r})"
+                )
         snapshots = [
             SnapshotStruct(
                 snapshot_id=snapshot_dict["snapshot_id"],
